@@ -17,7 +17,7 @@ EXPLANATION = (
     "deadline, no fired handle is cancelled; Q5 - PINGREQ bytes are written only by that routine, reachable only from the "
     "periodic call and ping() while CONNECTED. All timing statements (every k seconds, within k seconds, never when "
     "answered in time) are NOT decided. Not a finding on purpose: the routine overwrites the deadline handle without "
-    "cancelling the previous one - period and deadline are the same k, so the orphaned deadline is the one that must fire.")
+    "cancelling the previous one - period and deadline are the same k, so the orphaned deadline is the one that must fire. Q0: the premises of the framing lemma (every rule of C03) hold, a necessary condition of anything said about inbound packets.")
 ASSUMPTIONS = ["LoopingCall calls its target every `period` seconds starting immediately (Twisted contract)"]
 
 CONN = ("attr", SELF, "connReq")
